@@ -1128,6 +1128,15 @@ STATE_WRITES = {
 }
 
 
+# calls on a map id -> value (or on an entry of it) that can change or remove a value that is already there
+PRESENT_ENTRY_ACCESS = {
+    'get_mut': 'map.get_mut(k) / Occupied entry', 'values_mut': 'every value', 'iter_mut': 'every entry', 'into_mut': 'Occupied entry', 'and_modify': 'entry(k).and_modify(f)',
+    'remove': 'map / Occupied entry', 'remove_entry': '', 'clear': '', 'retain': '', 'drain': '', 'extend': 'overwrites equal keys', 'index_mut': 'map[k] = ..',
+    'insert': 'overwrites unless on the absent side of a presence test (VacantEntry::insert is always on the absent side)',
+    'insert_entry': 'Occupied entry', 'get_many_mut': '', 'swap': 'mem::swap of the map',
+}
+
+
 def use_rules(ctx):
     for item in ('evaluate', 'evaluate_samples'):
         b = ctx.method('C04.use/%s/anchor' % item, INST, item, trait='Evaluate')
@@ -1177,6 +1186,46 @@ def use_rules(ctx):
                 if cb.bb in b.reach([w.target], stop=same_iteration): late.append(b.site(cb.bb)); break
         ctx.check(not late, 'C04.use/%s/bound-check-on-submitted-state' % item, 'T-GUARD', b.name,
                   'check_bound is applied to a state after dependent / fixed / default values were written into it (%s)' % late, b.site(cbs[0].bb) if cbs else b.site())
+        # The value eval_dependencies stored under a dependent id is the value of the replacement: it reaches the reported state unchanged.
+        # After the call (within the same sample iteration) the state's map is only *completed*: nothing takes mutable access to entries
+        # that are present (get_mut / values_mut / iter_mut / Occupied entry / remove / retain / extend ..), and a plain insert sits on
+        # the absent side of a presence test of the same map (seed C04-20: recovered Binary / Integer values rounded by a helper).
+        touched = []
+        for e0 in (on_path or ed):
+            if e0.target < 0 or len(e0.args) < 2: continue
+            rs = _root(b, e0.args[1])
+            if rs is None: continue
+            region = b.reach([e0.target], stop={h for h, bl in b.loops().items() if e0.bb in bl})
+            def map_root(op):
+                r = _root(b, op)
+                ds = _whole_defs(b, r) if r is not None and r > b.argc else []
+                if len(ds) == 1 and ds[0][0] == 'call' and _call_at(b, ds[0][1]).item == 'entry' and ds[0][2]['args']: return _root(b, ds[0][2]['args'][0])
+                return r
+            absent = set(); present = set()
+            def side(start, test_bb):                  # what one outcome of a presence test leads to within the same loop iteration
+                return T.reach_cp(b, [start], stop={h for h, bl in b.loops().items() if test_bb in bl}) if start is not None else set()
+            for c in b.calls:
+                if 'u64, f64>' not in c.name or 'HashMap' not in c.name or not c.args or map_root(c.args[0]) != rs: continue
+                if c.item == 'contains_key':                                   # if !map.contains_key(k) { insert }
+                    for g in T.guards_from_call(b, c):
+                        absent |= side(g.false_bb, c.bb); present |= side(g.true_bb, c.bb)
+                elif c.item == 'get':                                          # match map.get(k) { None => insert }  /  map.get(k).is_none()
+                    for sb, m, els in T.option_arms(b, c.dst['l']):
+                        absent |= side(m.get(0, els), c.bb); present |= side(m.get(1, els), c.bb)
+                    for x in b.calls:
+                        if x.item in ('is_none', 'is_some') and x.args and T.access_path(b, x.args[0], transparent=NO_CALLS)[1] == c.dst['l']:
+                            for g in T.guards_from_call(b, x):
+                                t_, f_ = (g.true_bb, g.false_bb) if x.item == 'is_none' else (g.false_bb, g.true_bb)
+                                absent |= side(t_, c.bb); present |= side(f_, c.bb)
+            for c in b.calls:
+                if c.bb not in region or 'u64, f64>' not in c.name or not c.args or map_root(c.args[0]) != rs: continue
+                if c.item in PRESENT_ENTRY_ACCESS and not ('VacantEntry' in c.name):
+                    if c.item == 'insert' and 'OccupiedEntry' not in c.name:
+                        if c.bb in absent - present: continue                  # completion of an id the state lacks
+                    elif c.item == 'insert': pass
+                    touched.append('%s at %s' % (c.item, b.site(c.bb)))
+        ctx.check(not touched, 'C04.use/%s/recovered-values-untouched' % item, 'T-BRANCHFX', b.name,
+                  'after eval_dependencies the state is not only completed: entries that are present can be rewritten (%s)' % touched[:3], b.site((on_path or ed)[0].bb) if (on_path or ed) else b.site())
 
 
 # eval_dependencies treats "the dependency could not be evaluated yet" as Err from the evaluation kernels:
@@ -1201,4 +1250,4 @@ RELIES_ON = {'C01': ['C01.lookup', 'C01.fields', 'C01.every-term'],
 
 def check(ctx):
     instance_rules(ctx); function_rules(ctx); deps_rules(ctx); use_rules(ctx)
-    ctx.floor('C04.instance', 35); ctx.floor('C04.function', 16); ctx.floor('C04.deps', 13); ctx.floor('C04.use', 8)
+    ctx.floor('C04.instance', 35); ctx.floor('C04.function', 16); ctx.floor('C04.deps', 13); ctx.floor('C04.use', 10)
